@@ -144,6 +144,7 @@ def run(tier):
         R.under_contract(intcall.check_update_timestep(reg, src, PID))
         R.under_contract(intcall.check_rk_call(reg, src, PID, False, False))
         R.under_contract(intcall.check_symplectic_call(reg, src, PID))
+        R.under_contract(intcall.check_rk_call_caught_fault(reg, src, PID))
         # implicit classes without an embedded estimator: "may only shorten a step whose stage equations fail to converge"
         check_implicit_fixed(reg, src)
         d = e2common.load_tables(R)
@@ -152,7 +153,7 @@ def run(tier):
     except Unsupported as e:
         reg.undecided(PID + "/executor/unsupported", "unsupported", "executor", str(e))
     for ob in list(reg.obligations):
-        if not ob.discharged and ob.result != "unknown":
+        if not ob.discharged and ob.kind != "cover":
             e = R.kf.match(PID, ob.name)
             if e:
                 reg.obligations.remove(ob)
